@@ -447,6 +447,82 @@ fn check_behaviour(ctx: &mut Ctx, b: &Behaviour) -> Res {
     Ok(())
 }
 
+/// behavioural twin for health_check_port: a TCP connection to the written port of a server built from the loaded
+/// configuration is answered, whatever the relation of that number to the UDP `port`
+#[derive(Debug, Clone, Serialize, Deserialize)]
+pub struct HealthBehaviour {
+    pub via_env: bool,
+    pub port: u16,
+    /// health_check_port - port
+    pub delta: i32,
+}
+
+fn check_health_behaviour(ctx: &mut Ctx, b: &HealthBehaviour) -> Res {
+    use crate::srvlab::{install_logger, Lab};
+    use roughenough::config::{is_valid_config, make_config};
+    install_logger(log::LevelFilter::Off);
+    ctx.eval();
+    if !NET_ISOLATED.load(std::sync::atomic::Ordering::SeqCst) {
+        // fixed port numbers are only ours inside a private network namespace
+        ctx.class("c16:health-behaviour:skipped-no-private-netns");
+        return Ok(());
+    }
+    let hc = (b.port as i32 + b.delta).clamp(1, 65_535) as u16;
+    let settings: Vec<(String, String)> = vec![("interface".into(), "127.0.0.1".into()), ("port".into(), b.port.to_string()), ("seed".into(), GOOD_SEED.into()), ("health_check_port".into(), hc.to_string())];
+    let dir = scratch_dir("c16h");
+    let arg = if b.via_env {
+        for (k, v) in &settings {
+            std::env::set_var(format!("ROUGHENOUGH_{}", k.to_uppercase()), v);
+        }
+        "ENV".to_string()
+    } else {
+        let path = dir.join("h.cfg");
+        std::fs::write(&path, settings.iter().map(|(k, v)| format!("{}: {}\n", k, v)).collect::<String>()).unwrap();
+        path.display().to_string()
+    };
+    let cfg = no_unwind(|| make_config(&arg));
+    if b.via_env {
+        for (k, _) in &settings {
+            std::env::remove_var(format!("ROUGHENOUGH_{}", k.to_uppercase()));
+        }
+    }
+    let _ = std::fs::remove_dir_all(&dir);
+    let src = if b.via_env { "env" } else { "file" };
+    let cfg = match cfg {
+        Ok(Ok(c)) if is_valid_config(c.as_ref()) => c,
+        _ => return Ok(()), // refusing is C15's business
+    };
+    // (the worker process has its own network namespace: every port number is free)
+    let mut lab = match Lab::with_config(cfg.as_ref(), 1) {
+        Ok(l) => l,
+        Err(e) => return ctx.fail("server-new-failed", e),
+    };
+    use std::io::Read;
+    for attempt in 0..2 {
+        let mut st = match TcpStream::connect(("127.0.0.1", hc)) {
+            Ok(s) => s,
+            Err(e) => {
+                return ctx.fail(
+                    format!("effective-behaviour-differs-from-written|{}|health_check_port", src),
+                    format!("{} source: health_check_port written as {} (port {}) and accepted, but connection #{} to TCP port {} of the server built from that configuration failed: {}", src, hc, b.port, attempt, hc, e),
+                )
+            }
+        };
+        if let Err(p) = lab.step(&[], 0) {
+            return ctx.fail("health-step-failed", format!("{:?}", p));
+        }
+        st.set_read_timeout(Some(Duration::from_secs(2))).unwrap();
+        let mut got = Vec::new();
+        let _ = st.read_to_end(&mut got);
+        if !health_ok(&got) {
+            return ctx.fail(format!("effective-behaviour-differs-from-written|{}|health_check_port", src), format!("{} source: health_check_port {} (port {}): connection read {:?}", src, hc, b.port, String::from_utf8_lossy(&got)));
+        }
+    }
+    ctx.class(&format!("c16:health-behaviour:{}:{}", src, if b.delta == 0 { "same-number-as-port" } else { "other" }));
+    ctx.nontrivial(&(b.via_env, b.port, b.delta));
+    Ok(())
+}
+
 pub fn run_c16(ctx: &mut Ctx) -> Vec<Violation> {
     let t = ctx.tier;
     let mut out = vec![];
@@ -458,6 +534,13 @@ pub fn run_c16(ctx: &mut Ctx) -> Vec<Violation> {
         }
     }
     out.extend(run_enum(ctx, "behaviour", beh.len() as u64, |i| beh[i as usize].clone(), |ctx, b| check_behaviour(ctx, b)));
+    let mut hb = vec![];
+    for via_env in [false, true] {
+        for (port, delta) in [(8686u16, 0i32), (8686, 1), (8686, -1), (2002, 0), (65_535, 0), (65_534, 1), (1024, -1), (40_000, 256), (40_000, -256)] {
+            hb.push(HealthBehaviour { via_env, port, delta });
+        }
+    }
+    out.extend(run_enum(ctx, "health-behaviour", hb.len() as u64, |i| hb[i as usize].clone(), |ctx, b| check_health_behaviour(ctx, b)));
     let grid = c16_grid();
     let v = run_enum(ctx, "grid", grid.len() as u64, |i| grid[i as usize].clone(), |ctx, p| check_probe(ctx, p));
     if v.is_empty() && ctx.shard == 0 {
@@ -515,6 +598,7 @@ pub fn replay_c16(ctx: &mut Ctx, sub: &str, case: &Value) -> Res {
     match sub {
         "grid" | "random" => replay_case::<Probe, _>(ctx, case, |ctx, p| check_probe(ctx, p)),
         "behaviour" => replay_case::<Behaviour, _>(ctx, case, |ctx, b| check_behaviour(ctx, b)),
+        "health-behaviour" => replay_case::<HealthBehaviour, _>(ctx, case, |ctx, b| check_health_behaviour(ctx, b)),
         _ => Err(viol("bad-replay-file", format!("sub {} is replayed by re-running the check", sub))),
     }
 }
@@ -566,7 +650,7 @@ fn check_config(ctx: &mut Ctx, c: &ConfigCase) -> Res {
         // example.cfg as shipped: port, interface, seed, health_check_port; workers default
         SrvCfg { seed_hex: seed_hex.clone(), health: true, ..Default::default() }
     } else {
-        SrvCfg { seed_hex: seed_hex.clone(), workers: c.workers.map(|w| w as u64), health: c.health, batch_size: c.batch_size.map(|b| b as u32), fault: c.fault.map(|f| f as u32), status_interval: c.status_interval.map(|s| s as u32), client_stats: c.stats, via_env: c.via_env, extra: vec![], env_extra: vec![] }
+        SrvCfg { seed_hex: seed_hex.clone(), workers: c.workers.map(|w| w as u64), health: c.health, batch_size: c.batch_size.map(|b| b as u32), fault: c.fault.map(|f| f as u32), status_interval: c.status_interval.map(|s| s as u32), client_stats: c.stats, via_env: c.via_env, health_same_port: c.special == 3, extra: vec![], env_extra: vec![] }
     };
     if c.special == 2 {
         // make sure we really mirror the repository's file: same keys as /repo/example.cfg
@@ -674,6 +758,64 @@ fn check_config(ctx: &mut Ctx, c: &ConfigCase) -> Res {
             format!("{}: {} verified replies ({} failed) carry {} distinct delegated keys, expected one per worker = {}", tag, verified, failed, keys.len(), n),
         );
     }
+    // one client sends a burst larger than a batch in one go, with datagrams that are not requests in front of and
+    // between the valid ones (all land on one worker): every valid request of the burst is answered, none twice
+    {
+        let bs = c.batch_size.map(|b| b as usize).unwrap_or(64);
+        for round in 0..2u64 {
+            let sock = UdpSocket::bind("127.0.0.1:0").unwrap();
+            let m = bs + 8;
+            let mut reqs = vec![];
+            // second round: the server is not scheduled while the burst arrives (stopped, then continued), so the
+            // whole burst is queued on the socket when the worker next looks
+            if round == 1 {
+                s.signal(libc::SIGSTOP);
+            }
+            let _ = sock.send_to(&[], s.addr());
+            let _ = sock.send_to(&[0u8; 4], s.addr());
+            for j in 0..m {
+                k += 1;
+                let req = fresh_request(Proto::Classic, b"c15b", k ^ (round << 40));
+                let _ = sock.send_to(&req, s.addr());
+                if j == bs / 2 || j + 2 == m {
+                    let _ = sock.send_to(&[0xffu8; 1024], s.addr());
+                }
+                reqs.push(req);
+            }
+            if round == 1 {
+                std::thread::sleep(Duration::from_millis(20));
+                s.signal(libc::SIGCONT);
+            }
+            sock.set_read_timeout(Some(Duration::from_millis(200))).unwrap();
+            let mut got = 0usize;
+            let mut buf = [0u8; 4096];
+            let end = Instant::now() + Duration::from_secs(3);
+            while got < m && Instant::now() < end {
+                if let Ok((len, _)) = sock.recv_from(&mut buf) {
+                    got += 1;
+                    if fault == 0 && !reqs.iter().any(|r| verify_strict(Proto::Classic, r, &buf[..len], &s.pk).is_ok()) {
+                        return ctx.fail("reply-invalid|burst", format!("{}: a reply to a one-client burst verifies for none of its requests", tag));
+                    }
+                }
+            }
+            if got < m {
+                if s.udp_drops() > 0 {
+                    ctx.inconclusive(format!("{}: burst replies missing but the kernel reports drops", tag));
+                    return Ok(());
+                }
+                return ctx.fail(
+                    "request-unanswered|burst-with-non-requests",
+                    format!("{}: one client sent {} valid requests in one burst with 4 datagrams that are not requests among them (batch_size {}); only {} were answered within 3 s and the kernel reports no drops", tag, m, bs, got),
+                );
+            }
+            std::thread::sleep(Duration::from_millis(30));
+            sock.set_nonblocking(true).unwrap();
+            if sock.recv_from(&mut buf).is_ok() {
+                return ctx.fail("request-answered-twice", format!("{}: more replies than requests for a one-client burst", tag));
+            }
+        }
+        ctx.class("c15:one-client-burst-with-non-requests");
+    }
     // health port: 3*N sequential connections, each gets exactly the fixed response then EOF; UDP keeps being answered
     if let Some(hc) = s.hc_port {
         const WANT: &str = "HTTP/1.1 200 OK\nContent-Length: 0\nConnection: close\n\n";
@@ -734,6 +876,36 @@ fn check_config(ctx: &mut Ctx, c: &ConfigCase) -> Res {
                 }
                 None => return ctx.fail("time-service-stalls-during-health-checks", format!("{}: UDP request unanswered while health checks run", tag)),
             }
+        }
+    }
+    // endurance: "answers every TCP connection" also holds for the (limit+1)-th one. The descriptor limit of the
+    // running server is lowered to what it has open now plus 40 (a well-behaved server closes each health connection
+    // after answering it), then more sequential connections than that are made; all must be answered, UDP too.
+    if let (Some(hc), Some(base)) = (s.hc_port, s.fd_count()) {
+        if s.set_nofile_soft(base as u64 + 40) {
+            let total = 40 + 60;
+            for j in 0..total {
+                let mut st = match TcpStream::connect_timeout(&format!("127.0.0.1:{}", hc).parse().unwrap(), Duration::from_secs(2)) {
+                    Ok(st) => st,
+                    Err(e) => return ctx.fail("health-connect-failed|endurance", format!("{}: health connection #{} of a long sequential run failed: {}", tag, j, e)),
+                };
+                st.set_read_timeout(Some(Duration::from_secs(3))).unwrap();
+                let mut got = Vec::new();
+                let _ = st.read_to_end(&mut got);
+                if !health_ok(&got) {
+                    return ctx.fail(
+                        "health-no-response|endurance",
+                        format!("{}: health connection #{} of a sequential run read {:?}; the server had {} descriptors open before the run, now {:?}, soft limit {} (descriptors of answered connections are not released?)", tag, j, String::from_utf8_lossy(&got), base, s.fd_count(), base + 40),
+                    );
+                }
+            }
+            k += 1;
+            let probe = UdpSocket::bind("127.0.0.1:0").unwrap();
+            let req = fresh_request(Proto::Classic, b"c15e", k);
+            if exchange(&probe, s.addr(), &req, Duration::from_secs(3)).is_none() {
+                return ctx.fail("time-service-stalls-during-health-checks", format!("{}: UDP request unanswered after {} health connections", tag, total));
+            }
+            ctx.class("c15:health-endurance-run");
         }
     }
     // with per-client statistics on, workers publish snapshots every status_interval/10: keep traffic flowing for a
@@ -840,6 +1012,9 @@ fn c15_pairwise() -> Vec<ConfigCase> {
     out.push(ConfigCase { workers: None, health: false, batch_size: None, fault: None, status_interval: None, stats: false, via_env: true, special: 0 });
     out.push(ConfigCase { workers: Some(16), health: true, batch_size: Some(64), fault: Some(0), status_interval: Some(600), stats: false, via_env: true, special: 0 });
     // awkward-to-write in-range seed
+    // health_check_port written with the same number as the UDP port
+    out.push(ConfigCase { workers: Some(2), health: true, batch_size: None, fault: None, status_interval: None, stats: false, via_env: false, special: 3 });
+    out.push(ConfigCase { workers: Some(1), health: true, batch_size: Some(63), fault: None, status_interval: None, stats: true, via_env: true, special: 3 });
     out.push(ConfigCase { workers: Some(1), health: false, batch_size: None, fault: None, status_interval: None, stats: false, via_env: false, special: 1 });
     out.push(ConfigCase { workers: Some(1), health: false, batch_size: None, fault: None, status_interval: None, stats: false, via_env: true, special: 1 });
     out
@@ -894,6 +1069,11 @@ pub struct Round {
     pub think_us: u16,
     pub shared_nonces: bool,
     pub batch_size: u8,
+    /// impatient clients: every third request is sent twice back to back (a retransmission). Both copies are
+    /// requests; the server may answer both (it does) — each reply must be valid for that request, and nobody
+    /// else's reply may suffer
+    #[serde(default)]
+    pub retransmit: bool,
 }
 
 struct ClientOutcome {
@@ -906,6 +1086,13 @@ struct ClientOutcome {
     clock_outliers: Vec<(u128, String)>,
 }
 
+/// sum of the "dropped" column of /proc/net/softnet_stat (packets dropped because a CPU's input backlog was full)
+fn softnet_drops() -> u64 {
+    std::fs::read_to_string("/proc/net/softnet_stat")
+        .map(|t| t.lines().filter_map(|l| l.split_whitespace().nth(1).and_then(|x| u64::from_str_radix(x, 16).ok())).sum())
+        .unwrap_or(0)
+}
+
 fn run_round(ctx: &mut Ctx, s: &mut ServerProc, r: &Round, round_no: u64) -> Res {
     let addr = s.addr();
     let pk = s.pk.clone();
@@ -914,6 +1101,8 @@ fn run_round(ctx: &mut Ctx, s: &mut ServerProc, r: &Round, round_no: u64) -> Res
     let round_mono = Instant::now();
     let round_real = std::time::SystemTime::now();
     let mut handles = vec![];
+    // packets dropped before they reach any socket (per-CPU backlog of the loopback device full) are counted host-wide
+    let softnet0 = softnet_drops();
     for c in 0..n_clients {
         let r = r.clone();
         let pk = pk.clone();
@@ -922,6 +1111,7 @@ fn run_round(ctx: &mut Ctx, s: &mut ServerProc, r: &Round, round_no: u64) -> Res
             let sock = UdpSocket::bind("127.0.0.1:0").unwrap();
             let my_port = sock.local_addr().unwrap().port();
             let mut buf = [0u8; 4096];
+            let mut retransmitting = true;
             for k in 0..r.reqs as u64 {
                 let proto = match r.mix % 4 {
                     0 => Proto::Classic,
@@ -938,6 +1128,11 @@ fn run_round(ctx: &mut Ctx, s: &mut ServerProc, r: &Round, round_no: u64) -> Res
                 if sock.send_to(&req, addr).is_err() {
                     out.inconclusive = Some("send failed".into());
                     return out;
+                }
+                // (only while all outstanding datagrams of the round fit one worker's receive buffer: 2 per client, ~90 fit)
+                let twice = r.retransmit && r.clients <= 32 && retransmitting && (k + c as u64) % 3 == 0;
+                if twice {
+                    let _ = sock.send_to(&req, addr);
                 }
                 match sock.recv_from(&mut buf) {
                     Ok((len, _)) => match verify_strict(proto, &req, &buf[..len], &pk) {
@@ -961,13 +1156,28 @@ fn run_round(ctx: &mut Ctx, s: &mut ServerProc, r: &Round, round_no: u64) -> Res
                         }
                     },
                     Err(_) => {
-                        let drops = udp_drops_for_port(port) + udp_drops_for_port(my_port);
+                        let drops = udp_drops_for_port(port) + udp_drops_for_port(my_port) + softnet_drops().saturating_sub(softnet0);
                         if drops > 0 {
                             out.inconclusive = Some(format!("request unanswered but {} kernel drops reported", drops));
                         } else {
                             out.violation = Some(viol("request-unanswered-under-load", format!("client {} request {} ({}) got no reply within 10 s and the kernel reports no drops", c, k, proto.name())));
                         }
                         return out;
+                    }
+                }
+                if twice {
+                    // the copy's reply: same worker, same or next batch. If none comes within 2 s the server evidently
+                    // folds retransmissions (allowed); this client then stops retransmitting
+                    sock.set_read_timeout(Some(Duration::from_secs(2))).unwrap();
+                    match sock.recv_from(&mut buf) {
+                        Ok((len, _)) => {
+                            if let Err(e) = verify_strict(proto, &req, &buf[..len], &pk) {
+                                out.violation = Some(viol(format!("reply-invalid-under-load|{}", e), format!("client {} request {} ({}): the reply to the retransmitted copy fails strict verification: {}", c, k, proto.name(), e)));
+                                return out;
+                            }
+                            out.done += 1;
+                        }
+                        Err(_) => retransmitting = false,
                     }
                 }
                 // closed loop: nothing else may be queued for us
@@ -1068,8 +1278,10 @@ fn check_campaign(ctx: &mut Ctx, c: &Campaign) -> Res {
     let mut rounds: Vec<Round> = vec![];
     if c.rounds.len() >= 2 {
         for mix in [0u8, 1] {
-            rounds.push(Round { workers: r0.workers, stats: r0.stats, clients: 64, mix, reqs: 40, think_us: 0, shared_nonces: false, batch_size: r0.batch_size });
+            rounds.push(Round { workers: r0.workers, stats: r0.stats, clients: 64, mix, reqs: 40, think_us: 0, shared_nonces: false, batch_size: r0.batch_size, retransmit: false });
         }
+        // and one round of 32 impatient clients (every third request sent twice), protocols alternating per request
+        rounds.push(Round { workers: r0.workers, stats: r0.stats, clients: 32, mix: 3, reqs: 40, think_us: 0, shared_nonces: false, batch_size: r0.batch_size, retransmit: true });
     }
     rounds.extend(c.rounds.iter().cloned());
     for (i, r) in rounds.iter().enumerate() {
@@ -1083,8 +1295,8 @@ fn check_campaign(ctx: &mut Ctx, c: &Campaign) -> Res {
 }
 
 fn round_strategy(workers: u8) -> impl Strategy<Value = Round> {
-    (prop::bool::weighted(0.15), prop_oneof![1 => Just(1u8), 3 => 2u8..=16, 2 => 17u8..=64], 0u8..4, prop_oneof![3 => 20u16..=80, 1 => 80u16..=300], prop_oneof![2 => Just(0u16), 1 => 0u16..=2000], any::<bool>(), prop::sample::select(vec![1u8, 2, 8, 64]))
-        .prop_map(move |(stats, clients, mix, reqs, think_us, shared_nonces, batch_size)| Round { workers, stats, clients, mix, reqs, think_us, shared_nonces, batch_size })
+    (prop::bool::weighted(0.15), prop_oneof![1 => Just(1u8), 3 => 2u8..=16, 2 => 17u8..=64], 0u8..4, prop_oneof![3 => 20u16..=80, 1 => 80u16..=300], prop_oneof![2 => Just(0u16), 1 => 0u16..=2000], any::<bool>(), prop::sample::select(vec![1u8, 2, 8, 64]), prop::bool::weighted(0.35))
+        .prop_map(move |(stats, clients, mix, reqs, think_us, shared_nonces, batch_size, retransmit)| Round { workers, stats, clients, mix, reqs, think_us, shared_nonces, batch_size, retransmit })
 }
 
 pub fn run_c18(ctx: &mut Ctx) -> Vec<Violation> {
@@ -1108,7 +1320,7 @@ pub fn c11_burst_part(ctx: &mut Ctx) -> Vec<Violation> {
     let t = ctx.tier;
     let plans: Vec<Campaign> = [(1u8, 2u8, 24u8), (1, 8, 48), (2, 1, 16), (4, 64, 64)]
         .iter()
-        .map(|(workers, batch_size, clients)| Campaign { rounds: vec![Round { workers: *workers, stats: false, clients: *clients, mix: 0, reqs: t.pick(120, 600), think_us: 0, shared_nonces: false, batch_size: *batch_size }] })
+        .map(|(workers, batch_size, clients)| Campaign { rounds: vec![Round { workers: *workers, stats: false, clients: *clients, mix: 0, reqs: t.pick(120, 600), think_us: 0, shared_nonces: false, batch_size: *batch_size, retransmit: false }] })
         .collect();
     run_enum(ctx, "burst-real-binary", plans.len() as u64, |i| plans[i as usize].clone(), |ctx, c| check_campaign(ctx, c))
 }
@@ -1146,10 +1358,16 @@ pub struct SignalPlan {
     /// status_interval as written (None = left at its default of 600 s; the statistics timer fires every tenth of it)
     #[serde(default)]
     pub status_interval: Option<u16>,
+    /// the delay counts from the FIRST response of the server (other workers may still be starting) instead of from
+    /// the moment all worker threads exist
+    #[serde(default)]
+    pub early: bool,
 }
 
 fn check_signal(ctx: &mut Ctx, p: &SignalPlan) -> Res {
     ctx.eval();
+    // at most two flood plans at a time on this host (each keeps up to ~10 threads busy)
+    let _slot = if matches!(p.load, Load::Flood(..)) { host_slot("flood", 2, Duration::from_secs(180)) } else { None };
     let cfg = SrvCfg { seed_hex: GOOD_SEED.into(), workers: Some(p.workers as u64), client_stats: p.stats, status_interval: p.status_interval.map(|x| x as u32), ..Default::default() };
     let mut s = match ServerProc::start(&cfg) {
         Ok(s) => s,
@@ -1158,13 +1376,13 @@ fn check_signal(ctx: &mut Ctx, p: &SignalPlan) -> Res {
             return Ok(());
         }
     };
-    if let Err(e) = s.wait_ready(Duration::from_secs(10)) {
+    if let Err(e) = if p.early { s.wait_first_response(Duration::from_secs(10)) } else { s.wait_ready(Duration::from_secs(10)) } {
         ctx.inconclusive(format!("C19: server never served: {}", truncate(&e, 300)));
         return Ok(());
     }
     // wait for all workers so that the signal does not race start-up (the property starts 'once the server is serving')
-    let t_end = Instant::now() + Duration::from_secs(3);
-    while s.thread_names().iter().filter(|n| n.starts_with("worker-")).count() < p.workers as usize && Instant::now() < t_end {
+    let t_end = Instant::now() + Duration::from_secs(if p.early { 0 } else { 3 });
+    while !p.early && s.thread_names().iter().filter(|n| n.starts_with("worker-")).count() < p.workers as usize && Instant::now() < t_end {
         std::thread::sleep(Duration::from_millis(10));
     }
     let addr = s.addr();
@@ -1234,7 +1452,24 @@ fn check_signal(ctx: &mut Ctx, p: &SignalPlan) -> Res {
                     sock.set_nonblocking(true).unwrap();
                     crate::srvlab::set_rcvbuf_pub(&sock, 8 << 20);
                     let valid = fresh_request(Proto::Classic, b"c19f", c as u64);
-                    let invalid = vec![0x55u8; 1024];
+                    // invalid datagrams: junk that is rejected at the first header word, or requests that parse all the
+                    // way and fail late (classic request with a 60-byte nonce, IETF request naming another server)
+                    let invalid = match kind % 6 {
+                        5 => {
+                            // every known tag once (SIG..PAD), NONC of the right length, SRV of another server
+                            let mut m = Msg::new();
+                            for t in crate::refcodec::KNOWN {
+                                let v = if t == crate::refcodec::NONC { vec![0x3eu8; 32] } else if t == crate::refcodec::VER { VER_DRAFT13.to_le_bytes().to_vec() } else if t == crate::refcodec::SRV { vec![0x78u8; 32] } else { vec![0x11u8; 4] };
+                                m.fields.push((t, v));
+                            }
+                            let pad = 1012 - m.encode().len();
+                            m.fields.last_mut().unwrap().1.extend(std::iter::repeat(0u8).take(pad));
+                            m.encode_framed()
+                        }
+                        3 => build_request(Proto::Classic, &[0x3cu8; 60], 1024, &[], None),
+                        4 => build_request(Proto::Ietf, &[0x3du8; 32], 1024, &[VER_DRAFT13], Some(&[0x77u8; 32])),
+                        _ => vec![0x55u8; 1024],
+                    };
                     let mut n = 0u64;
                     // a reader thread on the same socket verifies every reply it can get hold of (replies beyond its rate
                     // are dropped by the kernel at our socket)
@@ -1270,10 +1505,10 @@ fn check_signal(ctx: &mut Ctx, p: &SignalPlan) -> Res {
                     };
                     while !stop.load(Ordering::Relaxed) {
                         n += 1;
-                        let d = match kind % 3 {
+                        let d = match kind % 6 {
                             0 => &valid,
-                            1 => &invalid,
-                            _ => if n % 2 == 0 { &valid } else { &invalid },
+                            2 => if n % 2 == 0 { &valid } else { &invalid },
+                            _ => &invalid,
                         };
                         let _ = sock.send_to(d, addr);
                     }
@@ -1332,7 +1567,7 @@ fn check_signal(ctx: &mut Ctx, p: &SignalPlan) -> Res {
         Load::Idle => "idle".to_string(),
         Load::Closed(k) => format!("closed-loop x{}", k),
         Load::ThenIdle(k) => format!("closed-loop x{} for 300 ms, then idle", k),
-        Load::Flood(k, kind) => format!("flood x{} ({})", k, ["valid", "invalid", "mixed"][(*kind % 3) as usize]),
+        Load::Flood(k, kind) => format!("flood x{} ({})", k, ["valid", "junk", "mixed", "requests with a wrong-length nonce", "requests for another server", "requests for another server carrying every known tag"][(*kind % 6) as usize]),
     };
     let tag = format!("workers={} stats={} status_interval={:?} {} load={} delay={}ms", p.workers, p.stats, p.status_interval, sigs, load_s, p.delay_ms);
     let load_class = match &p.load {
@@ -1387,25 +1622,35 @@ fn c19_grid() -> Vec<SignalPlan> {
     let mut i = 0;
     for workers in [1u8, 4, 16] {
         for term in [false, true] {
-            for load in [Load::Idle, Load::Closed(4), Load::Flood(4, 0), Load::Flood(3, 1), Load::Closed(16), Load::Flood(6, 2)] {
+            for load in [Load::Idle, Load::Closed(4), Load::Flood(4, 0), Load::Flood(3, 1), Load::Closed(16), Load::Flood(6, 2), Load::Flood(6, 3), Load::Flood(5, 4)] {
                 i += 1;
-                out.push(SignalPlan { workers, stats: i % 5 == 0, term, load, delay_ms: delays[i % delays.len()], status_interval: [None, Some(10), Some(1)][i % 3] });
+                out.push(SignalPlan { workers, stats: i % 5 == 0, term, load, delay_ms: delays[i % delays.len()], status_interval: [None, Some(10), Some(1)][i % 3], early: false });
             }
         }
     }
     // signal after the server has been idle for a while (seconds since start-up / since the last request)
-    out.push(SignalPlan { workers: 1, stats: false, term: true, load: Load::Idle, delay_ms: 3_600, status_interval: None });
-    out.push(SignalPlan { workers: 4, stats: false, term: false, load: Load::ThenIdle(3), delay_ms: 4_200, status_interval: None });
-    out.push(SignalPlan { workers: 4, stats: true, term: true, load: Load::Idle, delay_ms: 6_500, status_interval: Some(600) });
+    out.push(SignalPlan { workers: 1, stats: false, term: true, load: Load::Idle, delay_ms: 3_600, status_interval: None, early: false });
+    out.push(SignalPlan { workers: 4, stats: false, term: false, load: Load::ThenIdle(3), delay_ms: 4_200, status_interval: None, early: false });
+    out.push(SignalPlan { workers: 4, stats: true, term: true, load: Load::Idle, delay_ms: 6_500, status_interval: Some(600), early: false });
+    // floods made only of datagrams that are expensive to reject, against a single worker (every sender lands on it)
+    for (k, (term, delay_ms, stats)) in [(true, 100u16, false), (false, 30, false), (true, 250, true)].iter().enumerate() {
+        out.push(SignalPlan { workers: 1, stats: *stats, term: *term, load: Load::Flood(8, 5), delay_ms: *delay_ms, status_interval: [None, Some(1), Some(10)][k], early: false });
+    }
+    out.push(SignalPlan { workers: 4, stats: false, term: true, load: Load::Flood(12, 5), delay_ms: 60, status_interval: None, early: false });
+    // signal right after the first response, while the other workers of a 16-worker server are still starting
+    for (k, delay_ms) in [0u16, 1, 2, 5, 10, 20, 40, 80].iter().enumerate() {
+        out.push(SignalPlan { workers: 16, stats: k % 4 == 3, term: k % 2 == 0, load: Load::Idle, delay_ms: *delay_ms, status_interval: None, early: true });
+    }
     out
 }
 
 fn c19_random() -> impl Strategy<Value = SignalPlan> {
-    let load = prop_oneof![1 => Just(Load::Idle), 3 => (1u8..=24).prop_map(Load::Closed), 3 => (2u8..=8, 0u8..3).prop_map(|(k, kind)| Load::Flood(k, kind)), 1 => (1u8..=8).prop_map(Load::ThenIdle)];
+    let load = prop_oneof![1 => Just(Load::Idle), 3 => (1u8..=24).prop_map(Load::Closed), 3 => (2u8..=10, 0u8..6).prop_map(|(k, kind)| Load::Flood(k, kind)), 1 => (1u8..=8).prop_map(Load::ThenIdle)];
     (prop::sample::select(vec![1u8, 4, 16]), prop::bool::weighted(0.2), any::<bool>(), load, prop_oneof![2 => 0u16..=300, 1 => 90u16..=110, 1 => Just(0u16), 1 => 950u16..=1100], 0u16..=12_000, prop::sample::select(vec![None, Some(600u16), Some(10), Some(1)])).prop_map(|(workers, stats, term, load, delay_ms, long, status_interval)| {
         // idle shapes also sweep long idle periods (most of them short, some up to 12 s)
         let delay_ms = if matches!(load, Load::Idle | Load::ThenIdle(_)) && long % 3 == 0 { long } else { delay_ms };
-        SignalPlan { workers, stats, term, load, delay_ms, status_interval }
+        let early = matches!(load, Load::Idle) && delay_ms <= 100 && long % 2 == 0;
+        SignalPlan { workers, stats, term, load, delay_ms, status_interval, early }
     })
 }
 
@@ -1573,8 +1818,8 @@ fn check_leak_run(ctx: &mut Ctx, r: &LeakRun) -> Res {
     }
     s.wait_exit(Duration::from_secs(5));
     let out = s.final_output();
-    if let Some(w) = needles.find(out.as_bytes()) {
-        let line = out.lines().find(|l| needles.find(l.as_bytes()).is_some()).unwrap_or("");
+    if let Some(w) = needles.find_text(out.as_bytes()) {
+        let line = out.lines().find(|l| needles.find_text(l.as_bytes()).is_some()).unwrap_or("");
         return ctx.fail(format!("secret-in-server-output|{}", vname), format!("stdout/stderr of the real server ({} source, variant {}) contains {}: {:?}", if r.via_env { "ENV" } else { "file" }, vname, w, truncate(line, 300)));
     }
     if valid {
